@@ -319,7 +319,7 @@ void mmd_export_link_html(DString * out, const char * source, token * text, link
 		print_const(" ");
 		print(a->key);
 		print_const("=\"");
-		print(a->value);
+		mmd_print_string_html(out, a->value, false, false);
 		print_const("\"");
 		a = a->next;
 	}
@@ -460,7 +460,7 @@ void mmd_export_image_html(DString * out, const char * source, token * text, lin
 			print_const(" ");
 			print(a->key);
 			print_const("=\"");
-			print(a->value);
+			mmd_print_string_html(out, a->value, false, false);
 			print_const("\"");
 		}
 
